@@ -35,6 +35,9 @@ type Solver struct {
 	log     *bufio.Writer // transcript for cross-checking (optional)
 	logF    *os.File
 	Answers []SatResult // answers in order (when transcript enabled)
+	Dead    bool
+	lines   chan string
+	Paths   int
 }
 
 var solverTimeoutMs = 60000
@@ -67,6 +70,17 @@ func NewSolver(name string, transcript string) (*Solver, error) {
 		return nil, err
 	}
 	s := &Solver{name: name, cmd: cmd, in: bufio.NewWriterSize(stdin, 1<<16), inRaw: stdin, out: bufio.NewReaderSize(stdout, 1<<16)}
+	s.lines = make(chan string, 256)
+	go func() {
+		for {
+			line, err := s.out.ReadString('\n')
+			if err != nil {
+				close(s.lines)
+				return
+			}
+			s.lines <- line
+		}
+	}()
 	if transcript != "" {
 		f, err := os.Create(transcript)
 		if err != nil {
@@ -101,6 +115,15 @@ func (s *Solver) Send(line string) {
 }
 
 func (s *Solver) Close() {
+	if s.Dead {
+		s.inRaw.Close()
+		s.cmd.Wait()
+		if s.log != nil {
+			s.log.Flush()
+			s.logF.Close()
+		}
+		return
+	}
 	s.Send("(exit)")
 	s.in.Flush()
 	s.inRaw.Close()
@@ -115,12 +138,27 @@ func (s *Solver) Push() { s.Send("(push 1)") }
 func (s *Solver) Pop()  { s.Send("(pop 1)") }
 
 // readAnswer reads lines until sat/unsat/unknown; any (error line => Unknown.
+func (s *Solver) readLine() (string, bool) {
+	select {
+	case l, ok := <-s.lines:
+		return l, ok
+	case <-time.After(time.Duration(solverTimeoutMs+15000) * time.Millisecond):
+		s.Dead = true
+		s.cmd.Process.Kill()
+		return "", false
+	}
+}
+
 func (s *Solver) readAnswer() (SatResult, string) {
 	sawErr := ""
+	if s.Dead {
+		return Unknown, "solver process is gone"
+	}
 	for {
-		line, err := s.out.ReadString('\n')
-		if err != nil {
-			return Unknown, "solver died: " + err.Error() + " " + sawErr
+		line, ok := s.readLine()
+		if !ok {
+			s.Dead = true
+			return Unknown, "solver died or hung " + sawErr
 		}
 		line = strings.TrimSpace(line)
 		switch {
@@ -205,9 +243,9 @@ func (s *Solver) readSexp() (string, error) {
 	depth := 0
 	started := false
 	for {
-		line, err := s.out.ReadString('\n')
-		if err != nil {
-			return "", err
+		line, ok := s.readLine()
+		if !ok {
+			return "", fmt.Errorf("solver died")
 		}
 		for _, c := range line {
 			if c == '(' {
